@@ -11,6 +11,7 @@ mod types;
 mod wire;
 mod world;
 mod driver;
+mod batch;
 
 fn main() {
     let args: Vec<String> = std::env::args().collect();
